@@ -17,6 +17,7 @@ mod sample_props;
 mod space;
 mod stream_props;
 mod tt;
+mod twise_props;
 
 use common::Args;
 
@@ -47,6 +48,7 @@ fn main() {
         "C07" => sample_props::c07(&a),
         "C18" => sample_props::c18(&a),
         "C08" => atomic_props::c08(&a),
+        "C09" => twise_props::c09(&a),
         "C10" => persist_props::c10(&a),
         "C11" => edit_props::c11(&a),
         "C12" => cache_props::c12(&a),
